@@ -1,4 +1,4 @@
-(* C02 on the model, the Pack side: on a tree of regular files and directories
+(* C02 on the model, the Pack side: on a tree of regular files, directories and links that stay inside
    whose directory listings are sorted (as filepath.Walk reads them), Pack
    without ignore processing writes exactly the entries [kids_entries] - and
    with RoundTrip.unpack_tree_entries the round trip follows. *)
@@ -49,6 +49,7 @@ Proof. induction root as [|x root IH]; [destruct rel; reflexivity|]. cbn. now re
 Fixpoint wfs (t : stree) : Prop :=
   match t with
   | SFile _ _ _ => True
+  | SLink _ => True
   | SDir _ _ ks =>
       sorted_strict (map fst ks) = true /\
       (fix go (l : list (str * stree)) : Prop := match l with [] => True | kc :: r => wfs (snd kc) /\ go r end) ks
@@ -110,21 +111,29 @@ Section PackSide.
 Variable fs : node.
 Variable opts : popts.
 Variable root : list str.
+Hypothesis Hroot_ok : forallb seg_ok root = true.
 
 Lemma pack_simple : forall fuel t rel a chain,
-  sheight t < fuel -> wfs t -> rel <> [] ->
+  sheight t < fuel -> wfs t -> wf t -> forallb seg_ok rel = true -> links_ok rel t -> rel <> [] ->
   pack_node fs opts None root fuel root root chain (root ++ rel) (to_node t) a
   = inl (fold_left emit (map of_entry (tentries rel t)) a).
 Proof.
-  induction fuel as [|fuel IH]; intros t rel a chain Hh Hw Hne; [lia|].
+  induction fuel as [|fuel IH]; intros t rel a chain Hh Hw Hwf Hsegs Hlk Hne; [lia|].
   destruct rel as [|r0 rr]; [congruence|]. set (rel := r0 :: rr) in *.
   cbn [pack_node]. rewrite strip_prefix_self. unfold rel at 1. cbn match. fold rel.
   cbn [excl fst]. rewrite rel_comps_under.
-  destruct t as [d pm mt|pm mt ks].
+  destruct t as [d pm mt|l|pm mt ks].
   - cbn [to_node is_dir]. cbn match. cbn [tentries map fold_left]. unfold of_entry, entry_name. cbn [e_name e_type e_link e_mode e_mtime e_body].
     now rewrite app_nil_r, sec_of_mtime_of.
+  - cbn [to_node is_dir]. cbn match. cbn [tentries map fold_left]. unfold of_entry, entry_name. cbn [e_name e_type e_link e_mode e_mtime e_body].
+    rewrite app_nil_r.
+    destruct (exists_last Hne) as (pre & x & Erel). cbn [links_ok] in Hlk. rewrite Erel in Hlk, Hsegs |- *.
+    rewrite removelast_snoc in Hlk.
+    destruct (clean_join_abs root Hroot_ok) as [Hcl Hco].
+    pose proof (valid_symlink_stays (o_allow opts) (join_abs root) pre x l (conj eq_refl Hcl) Hsegs Hlk) as Hvs.
+    rewrite Hco in Hvs. rewrite Hvs. reflexivity.
   - rewrite to_node_dir. cbn [is_dir]. cbn match.
-    apply wfs_dir in Hw as [Hsorted Hwk].
+    apply wfs_dir in Hw as [Hsorted Hwk]. apply wf_dir in Hwf as [_ Hwfk]. apply links_ok_dir in Hlk.
     rewrite tentries_dir. cbn [map fold_left]. unfold of_entry at 1. cbn [e_name e_type e_link e_mode e_mtime e_body].
     unfold entry_name at 1. unfold join_rel. rewrite sec_of_mtime_of.
     set (a1 := emit a _).
@@ -151,7 +160,10 @@ Proof.
       { clear - Hwk Hkc. induction ks as [|x q IHq]; [destruct Hkc|]. cbn in Hwk. destruct Hwk as [H1 H2].
         destruct Hkc as [->|Hin]; [exact H1|now apply IHq]. }
       rewrite <- app_assoc.
-      rewrite (IH (snd kc) (rel ++ [fst kc]) a0 chain (sheight_kid_lt _ _ _ _ _ Hh Hkc) Hwc ltac:(destruct rel; discriminate)).
+      destruct (wf_kids_in ks kc Hwfk Hkc) as [Hsk Hwfc].
+      assert (Hsegk : forallb seg_ok (rel ++ [fst kc]) = true) by (rewrite forallb_app, Hsegs; cbn; now rewrite Hsk).
+      rewrite (IH (snd kc) (rel ++ [fst kc]) a0 chain (sheight_kid_lt _ _ _ _ _ Hh Hkc) Hwc Hwfc Hsegk
+                  (links_ok_kids_in rel ks kc Hlk Hkc) ltac:(destruct rel; discriminate)).
       rewrite (IHl (done ++ [kc]) _ ltac:(rewrite Hks, <- app_assoc; reflexivity)).
       now rewrite map_app, fold_left_app. }
     exact (Hloop ks [] a1 eq_refl).
@@ -166,14 +178,14 @@ Proof.
   cbn [fold_left]. unfold emit at 2. rewrite IH. cbn [rev]. now rewrite <- app_assoc.
 Qed.
 
-Lemma pack_root_kids fs opts root : forall fuel pmR mtR ks a chain,
-  sheight (SDir pmR mtR ks) < fuel -> wfs (SDir pmR mtR ks) ->
+Lemma pack_root_kids fs opts root (Hroot_ok : forallb seg_ok root = true) : forall fuel pmR mtR ks a chain,
+  sheight (SDir pmR mtR ks) < fuel -> wfs (SDir pmR mtR ks) -> wf (SDir pmR mtR ks) -> links_ok [] (SDir pmR mtR ks) ->
   pack_node fs opts None root fuel root root chain root (to_node (SDir pmR mtR ks)) a
   = inl (fold_left emit (map of_entry (kids_entries [] ks)) a).
 Proof.
-  intros fuel pmR mtR ks a chain Hh Hw. destruct fuel as [|fuel]; [lia|].
+  intros fuel pmR mtR ks a chain Hh Hw Hwf Hlk. destruct fuel as [|fuel]; [lia|].
   cbn [pack_node]. rewrite <- (app_nil_r root) at 2. rewrite strip_prefix_self. cbn match.
-  rewrite to_node_dir. apply wfs_dir in Hw as [Hsorted Hwk].
+  rewrite to_node_dir. apply wfs_dir in Hw as [Hsorted Hwk]. apply wf_dir in Hwf as [_ Hwfk]. apply links_ok_dir in Hlk.
   unfold readdir. rewrite names_tnp, (sort_names_sorted _ Hsorted).
   pose proof (sorted_nodup _ Hsorted) as Hnd.
   assert (Hloop : forall l done a0, ks = done ++ l ->
@@ -195,40 +207,24 @@ Proof.
     assert (Hwc : wfs (snd kc)).
     { clear - Hwk Hkc. induction ks as [|x q IHq]; [destruct Hkc|]. cbn in Hwk. destruct Hwk as [H1 H2].
       destruct Hkc as [->|Hin]; [exact H1|now apply IHq]. }
-    rewrite (pack_simple fs opts root fuel (snd kc) [fst kc] a0 chain (sheight_kid_lt _ _ _ _ _ Hh Hkc) Hwc ltac:(discriminate)).
+    destruct (wf_kids_in ks kc Hwfk Hkc) as [Hsk Hwfc].
+    rewrite (pack_simple fs opts root Hroot_ok fuel (snd kc) [fst kc] a0 chain (sheight_kid_lt _ _ _ _ _ Hh Hkc) Hwc Hwfc
+               ltac:(cbn; now rewrite Hsk) (links_ok_kids_in [] ks kc Hlk Hkc) ltac:(discriminate)).
     rewrite (IHl (done ++ [kc]) _ ltac:(rewrite Hks, <- app_assoc; reflexivity)).
     now rewrite map_app, fold_left_app. }
   exact (Hloop ks [] a eq_refl).
-Qed.
-
-Lemma clean_join_abs R : forallb seg_ok R = true -> clean (join_abs R) = join_abs R /\ comps_of (join_abs R) = R.
-Proof.
-  intros Hs. unfold join_abs. split.
-  - rewrite clean_rooted by reflexivity. f_equal. f_equal.
-    unfold rstack. cbn [split_on]. rewrite Ascii.eqb_refl. cbn [nrun fold_left nstep is_empty orb].
-    destruct R as [|g R']; [reflexivity|].
-    rewrite split_join.
-    + change (fold_left (nstep true) ?l ?s) with (nrun true s l).
-      rewrite nrun_plain by now apply forallb_seg_ok_plain. cbn [snd]. now rewrite app_nil_r, rev_involutive.
-    + discriminate.
-    + intros x Hx. apply seg_ok_no_slash. rewrite forallb_forall in Hs. now apply Hs.
-  - unfold comps_of. cbn [split_on]. rewrite Ascii.eqb_refl. cbn [filter is_empty negb].
-    destruct R as [|g R']; [reflexivity|].
-    rewrite split_join.
-    + now apply filter_nonempty_ok.
-    + discriminate.
-    + intros x Hx. apply seg_ok_no_slash. rewrite forallb_forall in Hs. now apply Hs.
 Qed.
 
 Theorem pack_simple_tree fs opts flags cwd fuel pre x pmR mtR ks :
   is_dir fs = true -> rdir fs pre -> forallb seg_ok (pre ++ [x]) = true ->
   get fs (pre ++ [x]) = Some (to_node (SDir pmR mtR ks)) ->
   o_ignore opts = false -> sheight (SDir pmR mtR ks) < fuel -> wfs (SDir pmR mtR ks) ->
+  wf (SDir pmR mtR ks) -> links_ok [] (SDir pmR mtR ks) ->
   exists files size,
     pack fuel fs opts flags cwd (join_abs (pre ++ [x]))
     = (PackOk (map of_entry (kids_entries [] ks)) files size, flags).
 Proof.
-  intros Hd Hr Hs Hg Hig Hh Hw. set (R := pre ++ [x]) in *.
+  intros Hd Hr Hs Hg Hig Hh Hw Hwf Hlk. set (R := pre ++ [x]) in *.
   destruct (clean_join_abs R Hs) as [Hcl Hco].
   assert (Hpl : forallb plainb pre = true /\ plain x = true).
   { pose proof (seg_ok_plainb _ Hs) as Hp. unfold R in Hp. rewrite forallb_app in Hp. apply andb_true_iff in Hp as [H1 H2].
@@ -246,7 +242,7 @@ Proof.
   assert (Hls : lstat fs R = Ok (Dir pmR mtR (map tnp ks))).
   { unfold R. apply (lstat_nonlink fs pre x Hr (proj1 Hpl) (proj2 Hpl)); [now rewrite <- to_node_dir|reflexivity]. }
   rewrite Hls. rewrite <- to_node_dir.
-  rewrite (pack_root_kids fs opts R fuel pmR mtR ks _ _ Hh Hw).
+  rewrite (pack_root_kids fs opts R Hs fuel pmR mtR ks _ _ Hh Hw Hwf Hlk).
   destruct (fold_left emit (map of_entry (kids_entries [] ks)) ([], [], 0%N)) as [[es files] size] eqn:E.
   exists (rev files), size. f_equal. f_equal.
   pose proof (fold_emit_es (map of_entry (kids_entries [] ks)) [] [] 0%N) as Hes. rewrite E in Hes. cbn [fst] in Hes.
@@ -260,17 +256,17 @@ Theorem pack_unpack_round_trip fs opts flags cwd fuel pre x pmR mtR ks dst pmD m
   is_dir fs = true -> rdir fs pre -> forallb seg_ok (pre ++ [x]) = true ->
   get fs (pre ++ [x]) = Some (to_node (SDir pmR mtR ks)) ->
   o_ignore opts = false -> sheight (SDir pmR mtR ks) < fuel ->
-  wf (SDir pmR mtR ks) -> wfs (SDir pmR mtR ks) ->
+  wf (SDir pmR mtR ks) -> wfs (SDir pmR mtR ks) -> links_ok [] (SDir pmR mtR ks) ->
   dst_ok dst -> rdir fs (comps_of dst) -> get fs (comps_of dst) = Some (Dir pmD mtD []) ->
   exists es files size,
     pack fuel fs opts flags cwd (join_abs (pre ++ [x])) = (PackOk es files size, flags) /\
     unpack true (o_allow opts) fs dst (map to_entry es)
     = (put fs (comps_of dst) (Dir pmD (match ks with [] => mtD | _ => None end) (map rp ks)), ROk).
 Proof.
-  intros Hd Hr Hs Hg Hig Hh Hwf Hwfs Hdst HrD HgD.
-  destruct (pack_simple_tree fs opts flags cwd fuel pre x pmR mtR ks Hd Hr Hs Hg Hig Hh Hwfs) as (files & size & Hp).
+  intros Hd Hr Hs Hg Hig Hh Hwf Hwfs Hlk Hdst HrD HgD.
+  destruct (pack_simple_tree fs opts flags cwd fuel pre x pmR mtR ks Hd Hr Hs Hg Hig Hh Hwfs Hwf Hlk) as (files & size & Hp).
   exists (map of_entry (kids_entries [] ks)), files, size. split; [exact Hp|].
   rewrite map_map. rewrite (map_ext _ (fun e => e) to_of_entry), map_id.
-  apply wf_dir in Hwf as [Hnd Hwk].
-  exact (unpack_tree_entries (o_allow opts) fs dst Hdst Hd HrD pmD mtD ks HgD Hnd Hwk).
+  apply wf_dir in Hwf as [Hnd Hwk]. apply links_ok_dir in Hlk.
+  exact (unpack_tree_entries (o_allow opts) fs dst Hdst Hd HrD pmD mtD ks HgD Hnd Hwk Hlk).
 Qed.
